@@ -20,6 +20,10 @@ func main() {
 		devExec(os.Args[2:])
 	case "committrace":
 		devCommitTrace(os.Args[2:])
+	case "corpus":
+		devCorpus()
+	case "enum":
+		devEnum()
 	default:
 		if !dispatch(os.Args[1], os.Args[2:]) {
 			fmt.Fprintln(os.Stderr, "unknown command", os.Args[1])
